@@ -92,3 +92,36 @@ def run(chk):
     recs = run_stream(chk, n, FLAVORS)
     chk.streams["process"] = len(recs)
     judge(chk, recs, "C02")
+    cli_assertions(chk, recs)
+
+
+def cli_assertions(chk, recs):
+    """the COMMAND: a ledger with a false assertion is refused whatever part of it the report is asked to show (`--start` / `--end`
+    select what is reported, never what is checked)"""
+    import os
+    import subprocess
+    from common import WORK, OKANE
+    d = os.path.join(WORK, "C02", "cli")
+    os.makedirs(d, exist_ok=True)
+    bad = [r for r in recs if r.get("impl", {}).get("kind") == "err" and r["impl"].get("err") == "BalanceAssertionFailure"]
+    n = 0
+    for r in bad[:(12 if chk.tier == "quick" else 150)]:
+        path = os.path.join(d, "%s.ledger" % r["id"].replace("/", "_"))
+        open(path, "w").write(r["text"])
+        for extra in ([], ["--end", "1900-01-01"], ["--start", "1900-01-01", "--end", "1900-02-01"], ["--start", "2999-01-01"]):
+            cmd = [OKANE, "balance"] + extra + [path]
+            try:
+                p = subprocess.run(cmd, stdout=subprocess.PIPE, stderr=subprocess.PIPE, text=True, timeout=20)
+            except (OSError, subprocess.TimeoutExpired):
+                continue
+            n += 1
+            if p.returncode == 0:
+                chk.oracle_failures += 1
+                chk.violation("C02: `okane balance %s` accepts a ledger whose balance assertion is false (report::process rejects it: %s)" %
+                              (" ".join(extra), r["impl"].get("rest")),
+                              {"cmd": cmd, "ledger": r["text"], "stdout": p.stdout[-800:]})
+        try:
+            os.remove(path)
+        except OSError:
+            pass
+    chk.streams["cli: false assertion under --start/--end"] = n
